@@ -11,25 +11,26 @@ Lemma check_counters_frame p b p' c :
   check_counters p b = (p', c) ->
   p_stats p' = p_stats p /\ p_max_bytes p' = p_max_bytes p /\ p_max_allocs p' = p_max_allocs p.
 Proof.
-  unfold check_counters. destruct (_ >? _).
+  unfold check_counters. destruct (_ <=? _); [intros H; injection H as <- <-; auto|]. destruct (_ >? _).
   - cbn [p_ignored set_ignored]. destruct (_ <? _); intros H; injection H as <- <-; cbn; auto.
   - intros H; injection H as <- <-; cbn; auto.
 Qed.
 
 Lemma check_counters_pass p b p' :
   check_counters p b = (p', CPass) ->
-  ps_bytes_moved (p_stats p) + b <= p_max_bytes p /\ p_ignored p' = 0.
+  ps_bytes_moved (p_stats p) + b <= p_max_bytes p /\ ps_allocs_moved (p_stats p) < p_max_allocs p /\
+  p_ignored p' = 0.
 Proof.
-  unfold check_counters. destruct (_ >? _) eqn:E.
+  unfold check_counters. destruct (_ <=? _) eqn:E0; [discriminate|]. destruct (_ >? _) eqn:E.
   - cbn [p_ignored set_ignored]. destruct (_ <? _); discriminate.
-  - intros H; injection H as <-. cbn. split; lia.
+  - intros H; injection H as <-. cbn. repeat split; lia.
 Qed.
 
 Lemma check_counters_ignore p b p' :
   check_counters p b = (p', CIgnore) ->
   p_max_bytes p < ps_bytes_moved (p_stats p) + b /\ p_ignored p' = p_ignored p + 1 /\ p_ignored p' < max_allocs_to_ignore.
 Proof.
-  unfold check_counters. destruct (_ >? _) eqn:E.
+  unfold check_counters. destruct (_ <=? _) eqn:E0; [discriminate|]. destruct (_ >? _) eqn:E.
   - cbn [p_ignored set_ignored]. destruct (_ <? _) eqn:E2; [|discriminate].
     intros H; injection H as <-. cbn. lia.
   - discriminate.
@@ -37,25 +38,30 @@ Qed.
 
 Lemma check_counters_end p b p' :
   check_counters p b = (p', CEnd) ->
-  p_max_bytes p < ps_bytes_moved (p_stats p) + b /\ p_ignored p' = p_ignored p + 1 /\ max_allocs_to_ignore <= p_ignored p'.
+  (p' = p /\ p_max_allocs p <= ps_allocs_moved (p_stats p)) \/
+  (p_max_bytes p < ps_bytes_moved (p_stats p) + b /\ p_ignored p' = p_ignored p + 1 /\
+   max_allocs_to_ignore <= p_ignored p').
 Proof.
-  unfold check_counters. destruct (_ >? _) eqn:E.
+  unfold check_counters. destruct (_ <=? _) eqn:E0.
+  { intros H; injection H as <-. left. split; [reflexivity|lia]. }
+  destruct (_ >? _) eqn:E.
   - cbn [p_ignored set_ignored]. destruct (_ <? _) eqn:E2; [discriminate|].
-    intros H; injection H as <-. cbn. lia.
+    intros H; injection H as <-. right. cbn. lia.
   - discriminate.
 Qed.
 
 Lemma check_counters_over p b :
   p_max_bytes p < ps_bytes_moved (p_stats p) + b -> snd (check_counters p b) <> CPass.
 Proof.
-  intros H. unfold check_counters. destruct (_ >? _) eqn:E; [|lia].
+  intros H. unfold check_counters. destruct (_ <=? _); [cbn; discriminate|]. destruct (_ >? _) eqn:E; [|lia].
   cbn [p_ignored set_ignored]. destruct (_ <? _); cbn; discriminate.
 Qed.
 
-(* the counters while a pass is still collecting: strictly below the allocation limit *)
+(* the counters while a pass is collecting (since checkCounters ends a pass whose allocation
+   limit is used up, this is the same as pass_within below; the name is kept for the callers) *)
 Definition pass_running (p : pass) : Prop :=
   0 <= ps_bytes_moved (p_stats p) <= p_max_bytes p /\
-  0 <= ps_allocs_moved (p_stats p) < p_max_allocs p.
+  0 <= ps_allocs_moved (p_stats p) <= p_max_allocs p.
 
 (* the counters of a pass at any time: within both limits *)
 Definition pass_within (p : pass) : Prop :=
@@ -65,11 +71,12 @@ Definition pass_within (p : pass) : Prop :=
 Lemma running_within p : pass_running p -> pass_within p.
 Proof. unfold pass_running, pass_within. lia. Qed.
 
-Lemma pass_init_running mb ma : 0 <= mb -> 1 <= ma -> pass_running (pass_init mb ma).
+Lemma pass_init_running mb ma : 0 <= mb -> 0 <= ma -> pass_running (pass_init mb ma).
 Proof. unfold pass_running; cbn. lia. Qed.
 
 Lemma increment_counters_spec p b p' r :
-  pass_running p -> 0 <= b -> ps_bytes_moved (p_stats p) + b <= p_max_bytes p ->
+  pass_running p -> 0 <= b ->
+  ps_bytes_moved (p_stats p) + b <= p_max_bytes p /\ ps_allocs_moved (p_stats p) < p_max_allocs p ->
   increment_counters p b = (p', r) ->
   r <> IPanic /\
   p_stats p' = mkPS (ps_bytes_moved (p_stats p) + b) (ps_bytes_freed (p_stats p))
@@ -77,7 +84,7 @@ Lemma increment_counters_spec p b p' r :
   p_max_bytes p' = p_max_bytes p /\ p_max_allocs p' = p_max_allocs p /\ p_ignored p' = p_ignored p /\
   pass_within p' /\ (r = IContinue -> pass_running p').
 Proof.
-  intros ((Hb0 & Hb1) & (Ha0 & Ha1)) Hb Hfit. unfold increment_counters.
+  intros ((Hb0 & Hb1) & (Ha0 & _)) Hb (Hfit & Ha1). unfold increment_counters.
   destruct (_ || _) eqn:E.
   - destruct (negb _ && negb _) eqn:E2.
     + exfalso. apply andb_prop in E2. destruct E2 as (E2 & E3).
@@ -148,9 +155,9 @@ Proof.
     destruct c.
     + (* CPass *)
       destruct mv.
-      * apply check_counters_pass in Hc. destruct Hc as (Hfit & _).
+      * apply check_counters_pass in Hc. destruct Hc as (Hfit & Hlt & _).
         destruct (increment_counters p1 size) as [p2 r] eqn:Hi.
-        rewrite <- F1, <- F2 in Hfit.
+        rewrite <- F1, <- F2 in Hfit. rewrite <- F1, <- F3 in Hlt. pose proof (conj Hfit Hlt) as Hfit2. clear Hfit. rename Hfit2 into Hfit.
         destruct (increment_counters_spec _ _ _ _ Hrun1 Hs Hfit Hi) as (Hnp & Hst & M1 & M2 & _ & Hw & Hc2).
         assert (Ha2 : ps_allocs_moved (p_stats p2) = zlen (moved ++ [size])).
         { rewrite Hst. cbn. unfold zlen in *. rewrite app_length. cbn. rewrite F1. lia. }
@@ -189,19 +196,18 @@ Proof.
       destruct IH as (I1 & I2 & I3 & I4).
       repeat split; auto; try congruence; try lia.
       intros Hlen. apply I4. unfold zlen in *. cbn [length] in Hlen. lia.
-    + apply check_counters_end in Hc. destruct Hc as (_ & Hi1 & Hi2).
-      cbn [do_moved do_pass do_res do_ignores]. repeat split; auto; lia.
+    + cbn [do_moved do_pass do_res do_ignores]. repeat split; auto; lia.
 Qed.
 
 (* ------------------------------------------------------------------ C15: the limits of a pass *)
 
-(* For a pass created with 1 <= maxAllocs, 0 <= maxBytes, whatever allocations the walk meets and
+(* For a pass created with 0 <= maxAllocs, 0 <= maxBytes, whatever allocations the walk meets and
    whichever of them find a destination: incrementCounters never panics, the number of moves
    stays within maxAllocs and their bytes within maxBytes, and the pass statistics are exactly
    the moves made.  If every allocation is larger than the byte limit, no move is made, at most
    15 allocations are ignored and the 16th check ends the pass. *)
 Theorem pass_limits mb ma evs :
-  1 <= ma -> 0 <= mb -> Forall (fun e => 0 <= ev_size e) evs ->
+  0 <= ma -> 0 <= mb -> Forall (fun e => 0 <= ev_size e) evs ->
   let o := drive (pass_init mb ma) evs [] 0 in
   do_res o <> DPanic /\
   zlen (do_moved o) <= ma /\ zsum (do_moved o) <= mb /\
@@ -225,9 +231,17 @@ Proof.
     intros; apply T4; lia. }
 Qed.
 
-(* the panic is real outside the documented domain: a pass with MaxPassAllocations = 0 (the zero
-   value of PassContext with a byte limit set) panics at its first move *)
-Lemma zero_allocs_panics : do_res (drive (pass_init 100 0) [Ev 10 true] [] 0) = DPanic.
-Proof. vm_compute. reflexivity. Qed.
+(* MaxPassAllocations = 0 (the zero value of PassContext with a byte limit set): the pass ends at
+   its first check and proposes nothing (before the repair of checkCounters this panicked) *)
+Lemma zero_allocs_proposes_nothing :
+  let o := drive (pass_init 100 0) [Ev 10 true; Ev 20 true] [] 0 in
+  do_res o = DEnded /\ do_moved o = [] /\ do_ignores o = 0.
+Proof. vm_compute. auto. Qed.
+
+(* a limit of two allocations: the third allocation is not even looked at *)
+Lemma two_allocs_example :
+  let o := drive (pass_init 100 2) [Ev 10 true; Ev 95 true; Ev 20 true; Ev 5 true] [] 0 in
+  do_res o = DEnded /\ do_moved o = [10; 20] /\ do_ignores o = 1.
+Proof. vm_compute. auto. Qed.
 
 Print Assumptions pass_limits.
